@@ -603,8 +603,11 @@ protected:
 			setzero();
 		}
 		else {
-			hi = static_cast<double>(v);
-			lo = 0.0;
+			// a 64-bit integer can have more than 53 significant bits: convert its two halves, which are exact, and normalize
+			int64_t low = v & 0xFFFFFFFF;
+			double h = static_cast<double>(v - low), l = static_cast<double>(low);
+			hi = h + l;
+			lo = l - (hi - h);
 		}
 		return *this;
 	}
@@ -614,8 +617,11 @@ protected:
 			setzero();
 		}
 		else {
-			hi = static_cast<double>(v);
-			lo = 0.0;
+			// a 64-bit integer can have more than 53 significant bits: convert its two halves, which are exact, and normalize
+			uint64_t low = v & 0xFFFFFFFF;
+			double h = static_cast<double>(v - low), l = static_cast<double>(low);
+			hi = h + l;
+			lo = l - (hi - h);
 		}
 		return *this;
 	}
